@@ -788,15 +788,15 @@ class TaskScenario(ScenarioData):
                     self.property[("start", self.scenarioIdx)] = date
                     self.property[("end", self.scenarioIdx)] = date
             else:
-                if end_date:
-                    self.property[("start", self.scenarioIdx)] = end_date
-                else:
-                    date = self.latestEnd
-                    if date is None:
-                        slot_idx = self.currentSlotIdx if self.currentSlotIdx is not None else 0
-                        date = self.project.idxToDate(slot_idx)
-                    self.property[("start", self.scenarioIdx)] = date
-                    self.property[("end", self.scenarioIdx)] = date
+                # The bound of a backward-scheduled milestone: its own end or the bound
+                # derived from its successors, never later than the project end (a
+                # deadline beyond the horizon is met inside it, as for tasks with work)
+                date = self.latestEnd if self.latestEnd is not None else end_date
+                if date is None:
+                    slot_idx = self.currentSlotIdx if self.currentSlotIdx is not None else 0
+                    date = self.project.idxToDate(slot_idx)
+                self.property[("start", self.scenarioIdx)] = date
+                self.property[("end", self.scenarioIdx)] = date
             return False
 
         if effort > 0:
